@@ -527,6 +527,13 @@ func (e *Exec) splitN(s, sep *Term, n int, fn *ssa.Function) Value {
 	if n == 0 {
 		return &SliceVal{isNil: true}
 	}
+	if ps, ok := e.structuralSplit(s, sepS, n); ok {
+		var vs []Value
+		for _, p := range ps {
+			vs = append(vs, p)
+		}
+		return e.mkSlice(types.Typ[types.String], vs)
+	}
 	var pieces []Value
 	max := e.h.ConcretizeMax
 	from := mkInt(0)
@@ -549,6 +556,115 @@ func (e *Exec) splitN(s, sep *Term, n int, fn *ssa.Function) Value {
 		from = mkAdd(i, mkInt(n1))
 	}
 	return e.mkSlice(types.Typ[types.String], pieces)
+}
+
+// charSet over-approximates the bytes that can occur in t (nil: unknown).
+func charSet(t *Term) *byteSet {
+	var bs byteSet
+	switch {
+	case t.op == "str":
+		for i := 0; i < len(t.sval); i++ {
+			bs.add(t.sval[i])
+		}
+		return &bs
+	case t.op == "str.from_int":
+		for c := byte('0'); c <= '9'; c++ {
+			bs.add(c)
+		}
+		return &bs
+	case t.op == "ite" && t.sort == SStr:
+		a, b := charSet(t.args[1]), charSet(t.args[2])
+		if a == nil || b == nil {
+			return nil
+		}
+		for k := range bs {
+			bs[k] = a[k] | b[k]
+		}
+		return &bs
+	case t.op == "str.++":
+		for _, x := range t.args {
+			c := charSet(x)
+			if c == nil {
+				return nil
+			}
+			for k := range bs {
+				bs[k] |= c[k]
+			}
+		}
+		return &bs
+	case strings.HasPrefix(t.op, "uf:b64enc_"):
+		for c := 0; c < 256; c++ {
+			ch := byte(c)
+			if (ch >= 'A' && ch <= 'Z') || (ch >= 'a' && ch <= 'z') || (ch >= '0' && ch <= '9') {
+				bs.add(ch)
+			}
+		}
+		if strings.Contains(t.op, "url") {
+			bs.add('-')
+			bs.add('_')
+		} else {
+			bs.add('+')
+			bs.add('/')
+		}
+		if !strings.Contains(t.op, "raw") {
+			bs.add('=')
+		}
+		return &bs
+	case t.op == "uf:hex_enc":
+		for c := byte('0'); c <= '9'; c++ {
+			bs.add(c)
+		}
+		for c := byte('a'); c <= 'f'; c++ {
+			bs.add(c)
+		}
+		return &bs
+	}
+	return nil
+}
+
+// structuralSplit splits a concatenation whose symbolic pieces provably do not
+// contain the separator's first byte, without consulting the solver (the
+// "rope" simplification of DESIGN.md §2.3).
+func (e *Exec) structuralSplit(s *Term, sep string, n int) ([]*Term, bool) {
+	if s.op != "str.++" {
+		if cs := charSet(s); cs != nil && !cs.has(sep[0]) && s.op != "str" {
+			return []*Term{s}, true
+		}
+		return nil, false
+	}
+	var out []*Term
+	var cur []*Term
+	for _, p := range s.args {
+		if lit, ok := p.strVal(); ok {
+			rest := lit
+			for {
+				if n > 0 && len(out) == n-1 {
+					break
+				}
+				i := strings.Index(rest, sep)
+				if i < 0 {
+					break
+				}
+				cur = append(cur, mkStr(rest[:i]))
+				out = append(out, mkConcat(cur...))
+				cur = nil
+				rest = rest[i+len(sep):]
+			}
+			cur = append(cur, mkStr(rest))
+			continue
+		}
+		cs := charSet(p)
+		if cs == nil || cs.has(sep[0]) {
+			return nil, false
+		}
+		cur = append(cur, p)
+	}
+	// a separator must not straddle a literal/symbolic boundary: guaranteed for single-byte separators
+	if len(sep) != 1 {
+		return nil, false
+	}
+	out = append(out, mkConcat(cur...))
+	return out, true
 }
 
 // cutVar returns the k-th occurrence position (fresh Int tied to index-of on
@@ -698,7 +814,24 @@ func (e *Exec) atoi(s *Term, fn *ssa.Function) Value {
 		return tuple(mkInt(int64(v)), nilIface)
 	}
 	if s.op == "str.from_int" {
-		return tuple(s.args[0], nilIface)
+		// from_int(x) is the decimal form for x >= 0 and "" otherwise
+		if e.branch(mkGe(s.args[0], mkInt(0))) {
+			return tuple(s.args[0], nilIface)
+		}
+		return tuple(mkInt(0), e.newError("strconv.Atoi: invalid syntax"))
+	}
+	if s.op == "ite" {
+		if e.branch(s.args[0]) {
+			return e.atoi(s.args[1], fn)
+		}
+		return e.atoi(s.args[2], fn)
+	}
+	if s.op == "str.++" && len(s.args) == 2 && s.args[0].op == "str" && s.args[0].sval == "-" && s.args[1].op == "str.from_int" {
+		y := s.args[1].args[0]
+		if e.branch(mkGe(y, mkInt(0))) {
+			return tuple(mkNeg(y), nilIface)
+		}
+		return tuple(mkInt(0), e.newError("strconv.Atoi: invalid syntax"))
 	}
 	digits := rePlus(reRange('0', '9'))
 	// Go also accepts underscores only with base prefix (base 0), not in Atoi.
